@@ -71,4 +71,25 @@ MonReqsT == {O([T |-> r]) : r \in MonitorRequests} \cup {O(<<>>), O([T |-> O(<<>
 EmitMon(x) == /\ \A m \in MonReqsT : PrintT(<<"CASE", ToJson([mode |-> "mon", t |-> "MonitorRequests", tree |-> m])>>)
               /\ \A m \in {O([T |-> r]) : r \in {O([columns |-> A(<<S("c1"), S("c2")>>), select |-> O([initial |-> B(FALSE)])]), O([select |-> O([modify |-> B(FALSE), delete |-> B(TRUE)])])}} :
                     \A c \in Corrupt(m) : PrintT(<<"CASE", ToJson([mode |-> "mon", t |-> "MonitorRequests", tree |-> c])>>)
+
+\* ---- notifications a client receives for its monitor of table T: sound ones, ones naming a table or a column the
+\* schema does not have, ill-typed rows, and every tree one edit away from two sound ones
+RowU == "00000000-0000-4000-8000-00000000000a"
+Notifs2 == TU2 \cup {O([T |-> O(RowU :> O([insert |-> O([c1 |-> N(5), c5 |-> S("n")])]))]),
+                     O([Nosuch |-> O(RowU :> O([insert |-> O([c1 |-> N(1)])]))]),
+                     O([T |-> O(RowU :> O([insert |-> O([nocol |-> N(1)])]))]),
+                     O([T |-> O(RowU :> O([modify |-> O([c1 |-> N(1)])]))]),
+                     O([T |-> O(RowU :> O([delete |-> Z]))]),
+                     O([T |-> O(RowU :> O([insert |-> O([c1 |-> S("x"), c2 |-> N(1), c3 |-> S("u"), c6 |-> MapEnc(<< <<N(1), N(2)>> >>)])]))]),
+                     O([T |-> O(RowU :> Z)]), O([T |-> Z])}
+Notifs1 == TU1 \cup {O([Nosuch |-> O(RowU :> O([new |-> O([c1 |-> N(1)])]))]),
+                     O([T |-> O(RowU :> O([new |-> O([nocol |-> N(1)])]))]),
+                     O([T |-> O(RowU :> O([old |-> O([c1 |-> N(1)])]))]),
+                     O([T |-> O(RowU :> O([old |-> O([c1 |-> N(1)]), new |-> O([c1 |-> S("x")])]))])}
+EmitNotif(x) == /\ \A m \in Notifs2 : PrintT(<<"CASE", ToJson([mode |-> "notif", t |-> "TableUpdates2", tree |-> m])>>)
+                /\ \A m \in Notifs1 : PrintT(<<"CASE", ToJson([mode |-> "notif", t |-> "TableUpdates", tree |-> m])>>)
+                /\ \A c \in Corrupt(O([T |-> O(RowU :> O([insert |-> O([c1 |-> N(5), c2 |-> MapEnc(<< <<S("a"), S("b")>> >>)])]))])) :
+                      PrintT(<<"CASE", ToJson([mode |-> "notif", t |-> "TableUpdates2", tree |-> c])>>)
+                /\ \A c \in Corrupt(O([T |-> O(RowU :> O([new |-> O([c1 |-> N(5), c6 |-> SetEnc(<<N(1), N(2)>>)])]))])) :
+                      PrintT(<<"CASE", ToJson([mode |-> "notif", t |-> "TableUpdates", tree |-> c])>>)
 =============================================================================
